@@ -119,7 +119,7 @@ fn run_history(case: &[u8], allow_threads: bool, allow_big: bool) -> Result<(boo
     let mut st = St { hs: (0..8).map(|_| None).collect(), log: Vec::new(), nontrivial: false, dropped_roots: Vec::new() };
     let nops = 2 + src.below(30);
     for _ in 0..nops {
-        let op = src.below(19);
+        let op = src.below(21);
         let live = st.live();
         let pick = |src: &mut Src, live: &Vec<usize>| -> Option<usize> { if live.is_empty() { None } else { Some(live[src.below(live.len())]) } };
         let name: String;
@@ -282,6 +282,26 @@ fn run_history(case: &[u8], allow_threads: bool, allow_big: bool) -> Result<(boo
                             *m = um;
                         }
                     }
+                }
+            }
+            19 | 20 => {
+                // overwrite whatever is at the path (container, string or scalar) by a built value, or by
+                // null through take-and-drop: the last reference into the arena may go away here while
+                // the holder keeps member names and siblings that came from it
+                let Some(a) = pick(&mut src, &live) else { continue };
+                let path = choose_path(&st.hs[a].as_ref().unwrap().m, &mut src);
+                let (uv, um) = universe(src.below(super::c15::N_UNIVERSE));
+                name = format!("overwrite holder {a} at {path:?}");
+                let h = st.hs[a].as_mut().unwrap();
+                if let Some(t) = h.v.pointer_mut(&path) {
+                    if op == 19 {
+                        *t = uv;
+                        *m_at_mut(&mut h.m, &path).unwrap() = um;
+                    } else {
+                        drop(t.take());
+                        *m_at_mut(&mut h.m, &path).unwrap() = M::Null;
+                    }
+                    st.nontrivial = true;
                 }
             }
             11 => {
@@ -716,8 +736,8 @@ pub fn run(ctx: &Ctx) {
         }
     });
     ctx.mark_exhaustive("every drop order (all permutations) of the holders of 6 sharing shapes (up to 6 holders)");
-    ctx.search(&subs[0], "random", ctx.n(150_000, 2_000_000), 200, &|src: &mut Src| src.rest().to_vec());
-    ctx.search(&subs[1], "random", ctx.n(8_000, 100_000), 200, &|src: &mut Src| src.rest().to_vec());
+    ctx.search(&subs[0], "random", ctx.n(450_000, 4_000_000), 200, &|src: &mut Src| src.rest().to_vec());
+    ctx.search(&subs[1], "random", ctx.n(24_000, 200_000), 200, &|src: &mut Src| src.rest().to_vec());
     // thread stress runs alone (global live counters): sequentially on the calling thread
     let mut list = Vec::new();
     for t in 0..3u8 {
